@@ -184,6 +184,7 @@ func verifyFunction(P *Program, db *SpecDB, R *Resolver, fs *FuncSpec, fn *ssa.F
 	reach = e.defineAlways("entry", reach)
 	res.entryReach = reach
 	f.run(reach, args, frees, st)
+	preserveObligations(e, fn, fs)
 	res.obls = e.obls
 	res.prelude = e.prelude(true)
 	res.weak = e.prelude(false)
@@ -260,7 +261,7 @@ func main() {
 		fre = regexp.MustCompile(*fnFilter)
 	}
 	for _, fs := range db.Funcs {
-		if fs.Trusted || fs.PkgPath == "" {
+		if fs.Trusted || fs.PreOnly || fs.PkgPath == "" {
 			continue
 		}
 		if !hasProp(fs.Props, *property) {
